@@ -80,7 +80,8 @@ type c3Blob struct {
 type c3Case struct {
 	nparts, minSize, maxSize int64
 	retries                  int
-	fixed, noprune           bool
+	variant                  int // bit mask of repaired behaviours the tree under test shows (see c3ProbeVariant)
+	noprune                  bool
 	univ                     []string
 	blobs                    []c3Blob
 	partials                 []c3Partial
@@ -173,7 +174,7 @@ func (a c3Attempt) line(sb *strings.Builder) {
 // line renders the oracle command of the case.
 func (c *c3Case) line() string {
 	var sb strings.Builder
-	fmt.Fprintf(&sb, "pull cfg %d %d %d %d %s %s", c.nparts, c.minSize, c.maxSize, c.retries, c3b(c.fixed), c3b(c.noprune))
+	fmt.Fprintf(&sb, "pull cfg %d %d %d %d %s %s", c.nparts, c.minSize, c.maxSize, c.retries, strconv.Itoa(c.variant), c3b(c.noprune))
 	fmt.Fprintf(&sb, " univ %d", len(c.univ))
 	for _, d := range c.univ {
 		sb.WriteString(" " + d)
@@ -296,7 +297,7 @@ func c3Parse(line string) *c3Case {
 	p.expect("cfg")
 	c.nparts, c.minSize, c.maxSize = p.nat(), p.nat(), p.nat()
 	c.retries = int(p.nat())
-	c.fixed = p.nat() != 0
+	c.variant = int(p.nat())
 	c.noprune = p.nat() != 0
 	p.expect("univ")
 	for n := p.nat(); n > 0; n-- {
